@@ -88,11 +88,11 @@ def random_task(rng, kind, seed):
         meas.append([str(c), st])
     step = float(rng.choice([0.3 * dt, dt, 0.1, 1.0, 10 * span + 1, dt * (1 + 1e-12), 2.5 * dt, dt / 7]))
     alt = bool(rng.rand() < 0.5)
-    models = str(rng.choice(["none", "default", "bias", "full"]))
+    models = str(rng.choice(["none", "default", "bias", "full", "asym"]))
     t = dict(kind=kind, start=pts[0], imu=pts[1:] if kind == "fb" else pts, meas=meas, step=step, alt=alt,
              models=models, form=str(rng.choice(["list", "none", "empty"])), seed=int(seed),
              vd0=float(rng.choice([0.0, 3.0, -1.5])) if not alt else float(rng.choice([0.0, 0.5])),
-             inc=bool(models == "full" or rng.rand() < 0.4), far=bool(rng.rand() < 0.25), shuffle=bool(rng.rand() < 0.5), intidx=bool(rng.rand() < 0.3))
+             inc=bool(models in ("full", "asym") or rng.rand() < 0.4), far=bool(rng.rand() < 0.25), shuffle=bool(rng.rand() < 0.5), intidx=bool(rng.rand() < 0.3))
     return t
 
 
@@ -108,10 +108,10 @@ def task_from_cfg(kind, cfg, seed, rng):
     names = list(rng.permutation(CLASSES)[:ns])
     meas = [[str(names[s]), [TICK * t for t in sorted(cfg["meas"][s])]] for s in range(ns)]
     alt = bool(rng.rand() < 0.5)
-    models = str(rng.choice(["none", "default", "bias", "full"]))
+    models = str(rng.choice(["none", "default", "bias", "full", "asym"]))
     return dict(kind=kind, start=TICK * pts[0], imu=[TICK * t for t in (pts[1:] if kind == "fb" else pts)], meas=meas,
                 step=TICK * step, alt=alt, models=models, form=str(rng.choice(["list", "none", "empty"])), seed=int(seed),
-                vd0=float(rng.choice([0.0, 3.0])) if not alt else 0.0, inc=bool(models == "full" or rng.rand() < 0.4), far=bool(rng.rand() < 0.25), shuffle=bool(rng.rand() < 0.5), intidx=bool(rng.rand() < 0.3))
+                vd0=float(rng.choice([0.0, 3.0])) if not alt else 0.0, inc=bool(models in ("full", "asym") or rng.rand() < 0.4), far=bool(rng.rand() < 0.25), shuffle=bool(rng.rand() < 0.5), intidx=bool(rng.rand() < 0.3))
 
 
 def corner_tasks(kind):
